@@ -199,6 +199,16 @@ func lattice(e *simEnv, p *refmatch.Probe, l *latticeCtx, other otherIdentities,
 	case "udp":
 		// a UDP datagram from the target's port back to us is not a reply form
 		emit(udpFrame(tgt, e.local, e.spec.Port, e.lport, v.V6), "direct", "udp-datagram")
+		if p.TTL%2 == 0 {
+			// a port-unreachable for this very probe sent by a host that is NOT the target (a firewall answering on the
+			// target's behalf, a multi-homed host): a legitimate reply - the hop is that sender's, under that sender's
+			// address, and it is not the destination
+			code := uint8(3)
+			if v.V6 {
+				code = 4
+			}
+			emit(gen.WrapError(l.next(v.V6), e.local, gen.DestUnreach, code, base, "min", nil, 0), "dusrc", "port-unreachable-from-foreign-host")
+		}
 	}
 	// unrelated traffic
 	emit(udpFrame(l.next(v.V6), e.local, 53, 40000, v.V6), "noise", "dns")
